@@ -40,7 +40,7 @@ def shards(tier, seed):
 def canon(v):
     bs = core.import_bitstring()
     if isinstance(v, bs.Bits):
-        return ('bits', type(v).__name__, v.bin, getattr(v, '_pos', None))
+        return ('bits', type(v).__name__, v.bin, getattr(v, 'pos', None))
     if isinstance(v, float):
         return ('f', 'nan' if v != v else v.hex())
     if isinstance(v, (list, tuple)):
@@ -53,7 +53,7 @@ def canon(v):
 
 
 def state_of(s):
-    return (s.bin, getattr(s, '_pos', None), len(s))
+    return (s.bin, getattr(s, 'pos', None), len(s))
 
 
 def run_events(ns_base, mk, events):
@@ -138,14 +138,14 @@ def run_shard(shard, acc):
 def snip(cls, c, r, lsb0, src):
     is_expr = bfs._code.get(src, (None, True))[1]
     run = ["def run(s):", "    try:", f"        r = {src}" if is_expr else f"        {src}; r = None", "    except Exception as e:", "        r = ('exc', type(e).__name__)",
-           "    return CANON(r), s.bin, getattr(s, '_pos', None), len(s)"]
+           "    return CANON(r), s.bin, getattr(s, 'pos', None), len(s)"]
     return '\n'.join([routes.SNIPPET_PRELUDE, api.HELPERS_SRC, CANON_SRC, f"bitstring.options.lsb0 = {lsb0}"] + run +
                      [f"a = run(bitstring.{cls}(bin={c!r}))"] + (["bitstring.options.lsb0 = False", f"x = {routes.source(r, cls, c)}", f"bitstring.options.lsb0 = {lsb0}", "b = run(x)"]
                       if r in MSB0_BUILD else [f"b = run({routes.source(r, cls, c)})"]) + ["assert a == b, (a, b)"])
 
 
 CANON_SRC = '''def CANON(v):
-    if isinstance(v, bitstring.Bits): return ('bits', type(v).__name__, v.bin, getattr(v, '_pos', None))
+    if isinstance(v, bitstring.Bits): return ('bits', type(v).__name__, v.bin, getattr(v, 'pos', None))
     if isinstance(v, float): return 'nan' if v != v else v.hex()
     if isinstance(v, (list, tuple)): return tuple(CANON(x) for x in v)
     return v'''
